@@ -189,11 +189,25 @@ func ensureBuild(race bool) string {
 		return bin
 	}
 	t0 := time.Now()
-	// prune other keys
+	// prune: keep the few most recently used keys (several trees may be
+	// checked in turn, e.g. seeded changes), remove the rest
 	if ents, err := os.ReadDir(cache); err == nil {
+		type kd struct {
+			name string
+			t    time.Time
+		}
+		var dirs []kd
 		for _, e := range ents {
 			if e.IsDir() && e.Name() != key {
-				os.RemoveAll(filepath.Join(cache, e.Name()))
+				if fi, err := e.Info(); err == nil {
+					dirs = append(dirs, kd{e.Name(), fi.ModTime()})
+				}
+			}
+		}
+		sort.Slice(dirs, func(i, j int) bool { return dirs[i].t.After(dirs[j].t) })
+		for i, d := range dirs {
+			if i >= 5 {
+				os.RemoveAll(filepath.Join(cache, d.name))
 			}
 		}
 	}
